@@ -156,7 +156,7 @@ private:
   // with.
   typedef std::vector<InterrogateModuleDef *> Modules;
   Modules _modules;
-  typedef std::map<std::string, InterrogateModuleDef *> ModulesByHash;
+  typedef std::multimap<std::string, InterrogateModuleDef *> ModulesByHash;
   ModulesByHash _modules_by_hash;
 
   // This records the set of database files that are still to be loaded.
